@@ -17,7 +17,7 @@ import (
 
 func init() {
 	register(Suite{Name: "c07-smtp-direct", Property: "C07",
-		Rule: "smtp.NewClient, then StartTLS against a server that refuses it (454, 502, 500, garbage, disconnect, a handshake that fails) or accepts it, then - whatever StartTLS returned - Auth with PlainAuth / LoginAuth (not the NOENC forms) for non-localhost and localhost server names; the bytes the client wrote in clear text must not contain the password in any SASL encoding unless the server name is localhost; oracle only; distinct by (mechanism, host, server behaviour, credentials)",
+		Rule: "smtp.NewClient, then StartTLS against a server that refuses it (454, 502, 500, garbage, disconnect, a handshake that fails) or accepts it, then - whatever StartTLS returned - Auth with PlainAuth / LoginAuth (not the NOENC forms) for non-localhost and localhost server names; the event trace, the result of Auth and the connection state are compared with the Lean model (newClient, startTLS, authWith, close); oracle: the bytes the client wrote in clear text must not contain the password in any SASL encoding unless the server name is localhost; distinct by (mechanism, host, server behaviour, credentials)",
 		Run: func(c *Ctx) {
 			tlsMaterial()
 			n := c.N(240, 6000)
@@ -64,8 +64,11 @@ func init() {
 				}
 				srv := newDialServer(sc, host)
 				conn := NewScriptConn(srv)
+				logger := &capLogger{}
+				run := &DialRun{}
 				var stErr, authErr error
 				var pan interface{}
+				gotClient := false
 				if !watchdog(30*time.Second, func() {
 					defer func() {
 						if rec := recover(); rec != nil {
@@ -76,11 +79,17 @@ func init() {
 					cl, err := smtp.NewClient(conn, host)
 					if err != nil {
 						stErr = err
+						run.Err = err
+						_ = conn.Close()
 						return
 					}
+					gotClient = true
 					stErr = cl.StartTLS(&tls.Config{ServerName: host, RootCAs: tlsRoots, MinVersion: tls.VersionTLS12})
 					// a caller that does not give up: authenticate anyway
 					authErr = cl.Auth(directAuth(sc))
+					if authErr != nil {
+						run.Err = fmt.Errorf("SMTP AUTH failed: %w", authErr)
+					}
 					_ = cl.Close()
 				}) {
 					pan = "the calls did not return within 30 s"
@@ -93,9 +102,14 @@ func init() {
 					c.Violate("dial-panic", fmt.Sprintf("the client panicked / hung: %v", pan), in)
 					continue
 				}
-				srv.mu.Lock()
-				clear := append([]byte(nil), conn.Clear.Bytes()...)
-				srv.mu.Unlock()
+				collectDial(run, srv, conn, logger, 0)
+				if gotClient {
+					// the same three calls on the model: newClient, startTLS (result ignored), authWith, close
+					line := strings.Replace(sc.modelLine(run), "smtp dial ", "smtp tlsauth ", 1)
+					c.AddCase(Case{Line: line, Want: run.wantLine(), Nontrivial: stErr != nil,
+						Branch: fmt.Sprintf("%s:behaviour=%d:starttls-failed=%v", mech, behaviour, stErr != nil), Desc: in})
+				}
+				clear := run.Clear
 				local := host == "localhost" || host == "127.0.0.1"
 				if f := containsSecret(clear, user, pass); f != "" && !local {
 					c.Violate("c07-cleartext-password", fmt.Sprintf("the password left the process in clear text (form %q) after StartTLS returned %v", f, stErr), in)
